@@ -49,7 +49,7 @@ CLAIMS = {
    note=COMMON_NOTE + "Assumed: tls.Server / Handshake / textproto.NewConn stubs. Client half: startTLS only if STARTTLS is in ext (initStartTLS), success switches to a new TLS transport with new buffers and forgets didHello (capabilities are renegotiated), DialStartTLS/NewClientStartTLS return no client on failure, sendMail calls Auth/SendMail only on a TLS transport. Assumed: tls.Client is lazy and fails closed.",
    design="3.C10", technique=T),
  "C04": dict(
-   text="Deductive proof: (count) every handler ensures exactly one final reply per command (one per accepted recipient for LMTP DATA / BDAT LAST, plus the closing 500 when the error threshold is passed, or a failed read), counted by ghost counters maintained by writeResponse; (shape) writeResponse requires, at EVERY real call site, a reply code in 200..599, an enhanced code of the same class (or unset/absent only for greeting, EHLO, 3xx) and reply text free of C0 controls other than HT/LF and of DEL (character-class predicate, closed under concatenation/Sprintf); (attribution) the value written after DATA/BDAT is the result of this call's callback / received from this transfer's result channel (call-site and receive-site obligations). Seven echo sites fail the text clause: recorded as known findings with their witnesses.",
+   text="Deductive proof: (count) every handler ensures exactly one final reply per command (one per accepted recipient for LMTP DATA / BDAT LAST, plus the closing 500 when the error threshold is passed, or a failed read), counted by ghost counters maintained by writeResponse; (shape) writeResponse requires, at EVERY real call site, a reply code in 200..599, an enhanced code of the same class (or unset/absent only for greeting, EHLO, 3xx) and reply text free of C0 controls other than HT/LF and of DEL (character-class predicate, closed under concatenation/Sprintf); (attribution) the value written after DATA/BDAT is the result of this call's callback / received from this transfer's result channel (call-site and receive-site obligations). Text taken from the peer reaches a reply only through replyText, whose contract gives the text clause (seven echo sites failed it before fix 1f39509); the EHLO capability list is covered element by element through the keyword abstraction.",
    note=COMMON_NOTE + "Assumed: backend SMTPError values carry a 4xx/5xx code, an enhanced code of the same class and clean text; error texts and mechanism names supplied by the backend are clean; Server.Domain is clean. Not decided: reply order under segmentation below bufio (inherited from the ReadLine stub); the stale-result race of the BDAT goroutine (C20).",
    design="3.C04", technique=T + "; call-site preconditions on the single reply writer"),
  "C11": dict(
